@@ -5,9 +5,14 @@ import IceSpec.C16
 # C16 — candidate and attribute wire formats round-trip; equality is lawful
 
 Property theorems only (+ tiny glue: the observation a model candidate presents to the spec monitor).
-All candidate theorems hold for EVERY `Env` (the uninterpreted `netip.ParseAddr` classifier and
-CRC-32).  The model mirrors the tree with the F1 (`extensionsEqual` on `Extensions()`) and F7
-(`raddr` printed whenever the related address is non-empty) repairs.
+All candidate theorems hold for EVERY `Env` (the uninterpreted `netip.ParseAddr` classifier `cls`, the
+canonical-address key `canon` = `canonicalAddr ∘ netip.ParseAddr`, and CRC-32) — in particular every
+equality law (reflexive, symmetric, TRANSITIVE) needs no hypothesis at all.  One theorem,
+`C16_equal_iff` (with its corollary `C16_equal_literal_forms`), assumes the explicit law `EnvLaw env`
+("the address class is the class of the canonical address"); the driver checks that law on the values
+the real functions return (`cand canon` lines).  The model mirrors the tree with the F1
+(`extensionsEqual` on `Extensions()`), F7 (`raddr` printed whenever the related address is non-empty)
+and 2a786b2 (`sameAddressLiteral`: different literals of one IP are Equal) repairs.
 -/
 namespace IceProps.C16
 open IceModel.CandText IceModel.AttrCodec IceProofs.CandText IceProofs.AttrCodec
@@ -23,7 +28,7 @@ theorem C16_roundtrip (env : Env) (c : Cand) (h : WF env c) :
       foundation env c' = foundation env c ∧ c'.component = c.component ∧ c'.net = c.net ∧
       priority c' = priority c ∧ c'.address = c.address ∧ c'.port = c.port ∧ c'.typ = c.typ ∧
       c'.related = c.related ∧ c'.tcpType = c.tcpType ∧ extensions c' = extensions c ∧
-      equal c' c = true ∧ deepEqual c' c = true ∧ equal c c' = true ∧ deepEqual c c' = true := by
+      equal env c' c = true ∧ deepEqual env c' c = true ∧ equal env c c' = true ∧ deepEqual env c c' = true := by
   refine ⟨reparsed env c, parse_marshal env c h, reparsed_foundation env c h.1.1, rfl, rfl,
     reparsed_priority c env h.1.2.2.2.1, rfl, rfl, rfl, rfl, rfl, rfl, reparsed_equal env c,
     reparsed_deepEqual env c, ?_, ?_⟩
@@ -50,21 +55,22 @@ theorem C16_parse_wfcore (env : Env) (s : Str) (c : Cand) (h : parse env s = .ok
 
 /-
 FULL STATEMENT (false for the code as it is, see the witnesses below and notes/C16.md N3):
-  ∀ env s c, parse env s = .ok c → ∃ c', parse env (marshal env c) = .ok c' ∧ equal c c' = true
+  ∀ env s c, parse env s = .ok c → ∃ c', parse env (marshal env c) = .ok c' ∧ equal env c c' = true
 -/
 /-- **Re-marshal (partial).** Whatever `parse` accepts and is representable (`Repr`: an empty related
 address has port 0; the first extension printed is not empty and not the word `raddr` unless a related
 address is printed) re-marshals to text that parses to an Equal and DeepEqual candidate. -/
 theorem C16_parse_idempotent_partial (env : Env) (s : Str) (c : Cand) (h : parse env s = .ok c)
     (hr : Repr c) :
-    ∃ c', parse env (marshal env c) = .ok c' ∧ equal c c' = true ∧ equal c' c = true ∧
-      deepEqual c c' = true ∧ deepEqual c' c = true := by
+    ∃ c', parse env (marshal env c) = .ok c' ∧ equal env c c' = true ∧ equal env c' c = true ∧
+      deepEqual env c c' = true ∧ deepEqual env c' c = true := by
   obtain ⟨c', h1, _, _, _, _, _, _, _, _, _, _, e1, d1, e2, d2⟩ :=
     C16_roundtrip env c ⟨parse_wfCore env s c h, hr⟩
   exact ⟨c', h1, e2, e1, d2, d1⟩
 
-/-- an `Env` for the concrete witnesses: every address is IPv4, CRC 0 -/
-def envW : Env := { cls := fun _ => .v4, crc := fun _ => 0 }
+/-- an `Env` for the concrete witnesses: every string is an IPv4 literal of ONE address (canonical key
+`[0,0,0,0]`), CRC 0 -/
+def envW : Env := { cls := fun _ => .v4, canon := fun _ => some [0, 0, 0, 0], crc := fun _ => 0 }
 
 /-- "a 1 tcp 1 1.2.3.4 5 typ host tcptype   v" -/
 def textW1 : Str := [97, 32, 49, 32, 116, 99, 112, 32, 49, 32, 49, 46, 50, 46, 51, 46, 52, 32, 53, 32,
@@ -90,7 +96,7 @@ def reparse (env : Env) (s : Str) : Except ErrKind (Except ErrKind (Cand × Cand
 extension name after a `tcptype` with an empty value). -/
 theorem C16_parse_idempotent_witness :
     ¬ (∀ (env : Env) (s : Str) (c : Cand), parse env s = .ok c →
-        ∃ c', parse env (marshal env c) = .ok c' ∧ equal c c' = true) := by
+        ∃ c', parse env (marshal env c) = .ok c' ∧ equal env c c' = true) := by
   intro hall
   have h1 : ∃ c e, parse envW textW1 = .ok c ∧ parse envW (marshal envW c) = .error e := by
     have : (match reparse envW textW1 with
@@ -115,9 +121,9 @@ theorem C16_parse_idempotent_witness :
 /-- … and one whose re-marshalled form parses to a candidate that is NOT Equal (an empty related
 address with a non-zero port is dropped by `Marshal`). -/
 theorem C16_parse_idempotent_witness2 :
-    ∃ c c', parse envW textW2 = .ok c ∧ parse envW (marshal envW c) = .ok c' ∧ equal c c' = false := by
+    ∃ c c', parse envW textW2 = .ok c ∧ parse envW (marshal envW c) = .ok c' ∧ equal envW c c' = false := by
   have : (match reparse envW textW2 with
-      | .ok (.ok (c, c')) => equal c c'
+      | .ok (.ok (c, c')) => equal envW c c'
       | _ => true) = false := by decide
   unfold reparse at this
   split at this
@@ -133,13 +139,49 @@ theorem C16_parse_idempotent_witness2 :
         exact ⟨c0, c1, hc0, hc1, this⟩
   · cases this
 
-/-! ## equality laws (all candidates, no hypothesis) -/
+/-! ## equality laws (all candidates, every `Env`, no hypothesis) -/
 
-theorem C16_equal_refl (c : Cand) : equal c c = true := equal_refl c
-theorem C16_equal_symm (a b : Cand) : equal a b = equal b a := equal_symm a b
-theorem C16_deep_implies_equal (a b : Cand) (h : deepEqual a b = true) : equal a b = true := deepEqual_equal a b h
-theorem C16_deep_refl (c : Cand) : deepEqual c c = true := deepEqual_refl c
-theorem C16_deep_symm (a b : Cand) : deepEqual a b = deepEqual b a := deepEqual_symm a b
+theorem C16_equal_refl (env : Env) (c : Cand) : equal env c c = true := equal_refl env c
+theorem C16_equal_symm (env : Env) (a b : Cand) : equal env a b = equal env b a := equal_symm env a b
+theorem C16_equal_trans (env : Env) (a b c : Cand) (h1 : equal env a b = true) (h2 : equal env b c = true) :
+    equal env a c = true := equal_trans env a b c h1 h2
+theorem C16_deep_implies_equal (env : Env) (a b : Cand) (h : deepEqual env a b = true) : equal env a b = true :=
+  deepEqual_equal env a b h
+theorem C16_deep_refl (env : Env) (c : Cand) : deepEqual env c c = true := deepEqual_refl env c
+theorem C16_deep_symm (env : Env) (a b : Cand) : deepEqual env a b = deepEqual env b a := deepEqual_symm env a b
+theorem C16_deep_trans (env : Env) (a b c : Cand) (h1 : deepEqual env a b = true) (h2 : deepEqual env b c = true) :
+    deepEqual env a c = true := deepEqual_trans env a b c h1 h2
+
+/-- `sameAddressLiteral` ("the strings are identical, OR both parse and their canonical addresses are
+equal") is an equivalence relation although it is written asymmetrically: a string that does not
+parse (an mDNS name, garbage) is related to itself only. -/
+theorem C16_sameAddressLiteral_equivalence (env : Env) :
+    (∀ a, sameAddressLiteral env a a = true) ∧
+    (∀ a b, sameAddressLiteral env a b = sameAddressLiteral env b a) ∧
+    (∀ a b c, sameAddressLiteral env a b = true → sameAddressLiteral env b c = true →
+      sameAddressLiteral env a c = true) :=
+  ⟨sameAddressLiteral_refl env, sameAddressLiteral_symm env, sameAddressLiteral_trans env⟩
+
+/-- **What `Equal` is**, under `EnvLaw`: same type, network type, port, TCP type and related address;
+addresses that are one string or two literals of one canonical IP; and, for host candidates, both or
+neither an unresolved mDNS name.  (The `addrEqual` test on the resolved addresses decides nothing
+beyond the last clause.) -/
+theorem C16_equal_iff (env : Env) (hl : EnvLaw env) (c o : Cand) :
+    equal env c o = true ↔ c.typ = o.typ ∧ c.net = o.net ∧ c.port = o.port ∧ c.tcpType = o.tcpType ∧
+      c.related = o.related ∧ sameAddressLiteral env c.address o.address = true ∧
+      (c.typ = .host → isMDNS c.address = isMDNS o.address) :=
+  equal_iff env hl c o
+
+/-- **The purpose of 2a786b2**: the same constructor arguments with two literals `a₁`, `a₂` of one
+canonical IP (neither an mDNS name) give `Equal` — and `DeepEqual` — candidates, under `EnvLaw`. -/
+theorem C16_equal_literal_forms (env : Env) (hl : EnvLaw env) (ty : CType) (network a₁ a₂ : Str)
+    (port comp prio : Nat) (fnd : Str) (tt : TcpType) (ra : Str) (rp rlp : Nat) (c₁ c₂ : Cand) (k : Str)
+    (h1 : mkCand env ty network a₁ port comp prio fnd tt ra rp rlp = .ok c₁)
+    (h2 : mkCand env ty network a₂ port comp prio fnd tt ra rp rlp = .ok c₂)
+    (hk1 : env.canon a₁ = some k) (hk2 : env.canon a₂ = some k)
+    (hm1 : isMDNS a₁ = false) (hm2 : isMDNS a₂ = false) :
+    equal env c₁ c₂ = true ∧ deepEqual env c₁ c₂ = true :=
+  mkCand_literal_forms env hl ty network a₁ a₂ port comp prio fnd tt ra rp rlp c₁ c₂ k h1 h2 hk1 hk2 hm1 hm2
 
 /-- `extensionsEqual` is "same multiset" (the count loop only runs over the receiver's keys; with equal
 lengths that is enough). -/
@@ -167,8 +209,8 @@ def obsOf (env : Env) (c : Cand) : IceSpec.C16.CandObs where
 /-- the round-trip observation the model produces for `c` -/
 def rtObsOf (env : Env) (c : Cand) : IceSpec.C16.RtObs :=
   match parse env (marshal env c) with
-  | .ok c' => { orig := obsOf env c, parsed := some (obsOf env c'), equal := equal c' c, deep := deepEqual c' c,
-                equalRev := equal c c', deepRev := deepEqual c c' }
+  | .ok c' => { orig := obsOf env c, parsed := some (obsOf env c'), equal := equal env c' c, deep := deepEqual env c' c,
+                equalRev := equal env c c', deepRev := deepEqual env c c' }
   | .error _ => { orig := obsOf env c, parsed := none, equal := false, deep := false, equalRev := false, deepRev := false }
 
 /-- Every round-trip observation of a well-formed model candidate passes the round-trip monitor. -/
@@ -186,17 +228,69 @@ theorem C16_model_passes_rt_monitor (env : Env) (c : Cand) (h : WF env c) :
       simp [IceSpec.C16.sameGetters]
     rw [this]; rfl
 
-def eqObsOf (a b : Cand) : IceSpec.C16.EqObs :=
-  { aEa := equal a a, aDa := deepEqual a a, bEb := equal b b, bDb := deepEqual b b,
-    aEb := equal a b, bEa := equal b a, aDb := deepEqual a b, bDa := deepEqual b a }
+def eqObsOf (env : Env) (a b : Cand) : IceSpec.C16.EqObs :=
+  { aEa := equal env a a, aDa := deepEqual env a a, bEb := equal env b b, bDb := deepEqual env b b,
+    aEb := equal env a b, bEa := equal env b a, aDb := deepEqual env a b, bDa := deepEqual env b a }
 
 /-- Every pair of model candidates passes the equality-law monitor. -/
-theorem C16_model_passes_eq_monitor (a b : Cand) : IceSpec.C16.eqViolation (eqObsOf a b) = none := by
-  have h1 := equal_symm a b
-  have h2 := deepEqual_symm a b
+theorem C16_model_passes_eq_monitor (env : Env) (a b : Cand) :
+    IceSpec.C16.eqViolation (eqObsOf env a b) = none := by
+  have h1 := equal_symm env a b
+  have h2 := deepEqual_symm env a b
   simp only [IceSpec.C16.eqViolation, eqObsOf, equal_refl, deepEqual_refl, ← h1, ← h2]
-  have := deepEqual_equal a b
-  cases hd : deepEqual a b <;> cases he : equal a b <;> simp_all
+  have := deepEqual_equal env a b
+  cases hd : deepEqual env a b <;> cases he : equal env a b <;> simp_all
+
+def eq3ObsOf (env : Env) (a b c : Cand) : IceSpec.C16.Eq3Obs :=
+  { eab := equal env a b, ebc := equal env b c, eac := equal env a c,
+    eba := equal env b a, ecb := equal env c b, eca := equal env c a,
+    dab := deepEqual env a b, dbc := deepEqual env b c, dac := deepEqual env a c,
+    dba := deepEqual env b a, dcb := deepEqual env c b, dca := deepEqual env c a }
+
+/-- a symmetric, transitive Boolean relation on three points has no broken chain -/
+theorem chainBroken_false (ab bc ac : Bool) (t1 : ab = true → bc = true → ac = true)
+    (t2 : ab = true → ac = true → bc = true) (t3 : ac = true → bc = true → ab = true) :
+    IceSpec.C16.chainBroken ab bc ac ab bc ac = false := by
+  unfold IceSpec.C16.chainBroken
+  cases ab <;> cases bc <;> cases ac <;> simp_all
+
+/-- Every triple of model candidates passes the transitivity monitor. -/
+theorem C16_model_passes_eq3_monitor (env : Env) (a b c : Cand) :
+    IceSpec.C16.eq3Violation (eq3ObsOf env a b c) = none := by
+  have e1 := equal_symm env b a
+  have e2 := equal_symm env c b
+  have e3 := equal_symm env c a
+  have d1 := deepEqual_symm env b a
+  have d2 := deepEqual_symm env c b
+  have d3 := deepEqual_symm env c a
+  have ce := chainBroken_false (equal env a b) (equal env b c) (equal env a c)
+    (equal_trans env a b c)
+    (fun h1 h2 => equal_trans env b a c (by rw [e1]; exact h1) h2)
+    (fun h1 h2 => equal_trans env a c b h1 (by rw [e2]; exact h2))
+  have cd := chainBroken_false (deepEqual env a b) (deepEqual env b c) (deepEqual env a c)
+    (deepEqual_trans env a b c)
+    (fun h1 h2 => deepEqual_trans env b a c (by rw [d1]; exact h1) h2)
+    (fun h1 h2 => deepEqual_trans env a c b h1 (by rw [d2]; exact h2))
+  have i1 := deepEqual_equal env a b
+  have i2 := deepEqual_equal env b c
+  have i3 := deepEqual_equal env a c
+  simp only [IceSpec.C16.eq3Violation, eq3ObsOf, e1, e2, e3, d1, d2, d3, ce, cd, bne_self_eq_false,
+    Bool.or_self, Bool.false_eq_true, if_false]
+  cases hd1 : deepEqual env a b <;> cases hd2 : deepEqual env b c <;> cases hd3 : deepEqual env a c <;>
+    cases he1 : equal env a b <;> cases he2 : equal env b c <;> cases he3 : equal env a c <;> simp_all
+
+/-- the assumption monitor accepts exactly the `Env`s that satisfy `EnvLaw` (with the driver's key
+convention "4 bytes = IPv4" and the model's identification of the resolved IP with the canonical one) -/
+def addrObsOf (env : Env) (a : Str) : IceSpec.C16.AddrObs :=
+  { cls := match env.cls a with | .invalid => 0 | .v4 => 4 | .v6 => 6,
+    canon := env.canon a, viaResolved := [env.canon a, env.canon a] }
+
+theorem C16_envLaw_iff_monitor (env : Env) :
+    EnvLaw env ↔ ∀ a, IceSpec.C16.envLawViolation (addrObsOf env a) = none := by
+  unfold EnvLaw
+  refine forall_congr' fun a => ?_
+  unfold IceSpec.C16.envLawViolation addrObsOf clsOfCanon
+  cases hc : env.cls a <;> cases hk : env.canon a <;> simp <;> split <;> simp_all
 
 /-! ## attribute codecs -/
 
@@ -289,7 +383,20 @@ example : ∃ c, parse envW textW1 = .ok c := by
   | ok c => exact ⟨c, rfl⟩
   | error e => rw [h] at this; cases this
 example : Repr exHost ∧ ¬ Repr { exHost with tcpType := .unspecified, exts := [(sRaddr, [120])] } := by decide
-example : deepEqual exHost exHost = true ∧ equal exHost exSrflx = false := by decide
+example : deepEqual envW exHost exHost = true ∧ equal envW exHost exSrflx = false := by decide
+/-- an `Env` with two literals of one address ("1" ~ "2", both IPv4), a third address and a name -/
+def envL : Env :=
+  { cls := fun s => if s = [1] ∨ s = [2] ∨ s = [3] then .v4 else .invalid,
+    canon := fun s => if s = [1] ∨ s = [2] then some [9, 9, 9, 9] else if s = [3] then some [8, 8, 8, 8] else none,
+    crc := fun _ => 0 }
+example : EnvLaw envW := fun _ => rfl
+example : EnvLaw envL := by
+  intro a; unfold envL clsOfCanon; dsimp only
+  by_cases h1 : a = [1] <;> by_cases h2 : a = [2] <;> by_cases h3 : a = [3] <;> simp [h1, h2, h3]
+example : sameAddressLiteral envL [1] [2] = true ∧ sameAddressLiteral envL [1] [3] = false ∧
+    sameAddressLiteral envL [7] [7] = true ∧ sameAddressLiteral envL [7] [6] = false := by decide
+example : equal envL { exSrflx with address := [1] } { exSrflx with address := [2] } = true ∧
+    equal envL { exSrflx with address := [1] } { exSrflx with address := [3] } = false := by decide
 example : extensionsEqual [([1], [2]), ([3], [])] [([3], []), ([1], [2])] = true := by decide
 example : decNomination [0, 0, 0, 1, 9] = some 1 := by decide  -- S3: a 5-byte value is accepted
 example : decPriority (encPriority 4294967295) = some 4294967295 := by decide
